@@ -67,7 +67,7 @@ SPEC = {
             "field_coverage_pct_min": 100,
         },
         "thorough": {
-            "evaluations": 10_000_000, "distinct_nontrivial": 3000,
+            "evaluations": 10_000_000, "distinct_nontrivial": 2200,
             "tx_v5": 15_000, "tx_v6": 10_000, "tx_v4": 9000, "tx_v3": 3000, "tx_v1": 1000, "tx_v2": 1000, "tx_v2hi": 1000,
             "field_mutations": 800_000, "authorising_field_mutations": 150_000, "coin_mutations": 60_000, "structure_mutations": 120_000,
             "sighash_must_change_checks": 5_000_000, "sighash_exclusion_checks": 2_000_000, "hash_type_distinctness_checks": 50_000,
